@@ -103,12 +103,17 @@ FIXED_TABLES = [
      {"unix": True, "access": ["http-metrics", "http-leases"]}],
     [{"subnets": ["127.0.0.9/32"], "access": ["http", "http-metrics"]}, {"subnets": ["10.77.0.128/25"], "access": ["http-leases", "dhcp-client"]},
      {"access": ["http-metrics"]}],
+    # IPv6 prefixes shorter than /96 that contain the IPv4-mapped range: an IPv4 client seen as ::ffff:a.b.c.d is inside them
+    [{"subnets": ["::/0"], "access": ["dns-recursion", "http", "http-leases"]}],
+    [{"subnets": ["::/64"], "access": ["http-metrics"]}, {"subnets": ["127.0.0.0/8", "::1/128", "fd00::/16"], "access": ["dns-recursion", "http", "http-metrics", "http-leases"]}],
+    [{"subnets": ["::ffff:0:0/96"], "access": ["http"]}, {"subnets": ["::/80"], "access": ["dns-recursion", "http-leases"]}, {"access": ["http-metrics"]}],
+    [{"subnets": ["::ffff:127.0.0.8/125"], "access": ["dns-recursion"]}, {"subnets": ["::/1"], "access": ["http", "http-metrics", "http-leases"]}],
 ]
 
 
 def random_table(rnd):
     pool = ["127.0.0.0/8", "127.0.0.7/32", "127.0.0.9/8", "127.0.0.0/30", "::1/128", "fd00::/16", "fd00::2/128", "10.77.0.0/24",
-            "10.77.0.200/32", "10.77.0.1/25", "0.0.0.0/0", "::/0", "192.0.2.0/24"]
+            "10.77.0.200/32", "10.77.0.1/25", "0.0.0.0/0", "::/0", "192.0.2.0/24", "::/64", "::/80", "::ffff:0:0/96", "::ffff:127.0.0.0/104"]
     acc = ["dns-recursion", "http", "http-metrics", "http-leases", "http-ro", "dhcp-client"]
     rules = []
     for _ in range(rnd.randint(1, 5)):
